@@ -139,3 +139,42 @@ M.loop(P_MN + ':_Applier.apply', 0,
        and expected_iff_not_seen(self.files_condition.files, expected_files, _xs, _i),
        modifies=dict(expected_files='in-place', files_found=MListOf(PATH), actual_file='local',
                      relative_file_name='local', mb_matcher='local', matching_result='local'))
+
+
+# ============================================================================== the abstract directory tree
+# os.scandir(d) is a function of (time, path) -- `DirNodeI` in C15_dirtrees.py: the entries of the directory d, each with
+# a name, a ghost identity `fid` and its type tests.  The models of the files matchers are specified against it.
+
+from contracts.C15_dirtrees import (dir_entries, fid_of, DESCRIBED_PATH, FILE_MATCHER, P_MODELS)
+from contracts.common import items_of
+from contracts.pathspec import P0, join0
+from exactly_lib.impls.types.files_matcher import models
+
+
+def scandir_entries(d):
+    """the entries of the directory with denotation d, as os.scandir gives them NOW (proof level)"""
+    raise NotImplementedError
+
+
+M.model(scandir_entries, lambda interp, args, kwargs: dir_entries(interp, args[0]))
+
+
+def direct_contents(out, root):
+    """one file per entry of the directory, in scan order: the file of the entry, named NAME relative to the root
+    and root/NAME absolutely"""
+    es = scandir_entries(den(root.primitive))
+    return len(out) == len(es) \
+        and forall_range(0, len(out), lambda k: fid_of(out[k]) == es[k].fid
+                                                and den(out[k].relative_to_root_dir) == P0(es[k].name)
+                                                and den(out[k].path.primitive)
+                                                == join0(den(root.primitive), P0(es[k].name)))
+
+
+M.contract(P_MODELS + ':_FilesGeneratorForNonRecursive.generate',
+           params=dict(self=Inst(models._FilesGeneratorForNonRecursive), root_dir_path=DESCRIBED_PATH,
+                       directory_prune=Opt(FILE_MATCHER)),
+           may_raise=(OSError,),
+           ensures={'the direct contents of the directory: one file per entry, in scan order, at root/NAME (pruning is '
+                    'irrelevant: nothing is descended into)': lambda root_dir_path, result:
+           direct_contents(items_of(result), root_dir_path)},
+           raises_only=())
